@@ -63,6 +63,12 @@ impl<'h> FindMatchesImpl<'h> {
         self.last_position = 0;
         // The offset is clamped to the length of the haystack.
         self.offset = offset.min(self.input.len());
+        // The last character is the one before the new position. It decides whether the next
+        // character starts a new line.
+        self.last_char = self.input[..self.offset]
+            .chars()
+            .next_back()
+            .unwrap_or('\0');
     }
 
     /// Returns the next match in the haystack.
